@@ -124,7 +124,11 @@ def regenerate(run):
             ok &= rc == 0
         if os.path.exists(os.path.join(BUILD, "go2deep")):
             rc, out, err = sh([os.path.join(BUILD, "go2deep"), REPO, os.path.join(LEAN, "CacheVerif", "Generated", "Deep.lean")])
-            run.oblige("go2deep: every method body of xsync_map.go / xsync_mapof.go, the goroutine and the finalizer of their constructors are inside the Go subset of the deep embedding", rc == 0, err.strip())
+            run.oblige("go2deep: every method body of xsync_map.go / xsync_mapof.go is inside the Go subset of the deep embedding", rc == 0, err.strip())
+            # the goroutine and the finalizer of the two constructors: a separate generated file, an obligation of C15 only
+            rc2, out2, err2 = sh([os.path.join(BUILD, "go2deep"), "-ctor", REPO, os.path.join(LEAN, "CacheVerif", "Generated", "DeepCtor.lean")])
+            if run.pid == "C15":
+                run.oblige("go2deep -ctor: the goroutine newXsyncMap / newXsyncMapOf start and the finalizer they register have the shape the deep embedding interprets (if guard { go func() { ticker; defer Stop; for { select {...} } }() }; SetFinalizer(x, func(m) { close(m.f) }))", rc2 == 0, err2.strip())
             if rc != 0:
                 # keep the Lean project buildable for the other obligations: the generated files stay as they were
                 pass
